@@ -333,7 +333,12 @@ func scenEOS(s *Sim) {
 	// time once per input (a poll can return a single record)
 	bound += time.Duration(int64(len(inputs))*(p.Knob("pre_begin_ms", 0)+p.Knob("process_ms", 0))) * time.Millisecond
 	var last map[string]int
-	complete := s.WaitFor(bound, 2*time.Second, func() bool {
+	// The bound is a bound on STANDSTILL, not on the total: a member that
+	// commits one single-record transaction every few seconds over a slow
+	// network is live however many inputs remain. The window restarts
+	// whenever more inputs have a committed output than before (hard cap: one
+	// simulated hour).
+	done := func() bool {
 		v, ok := view()
 		if !ok {
 			return false
@@ -345,7 +350,25 @@ func scenEOS(s *Sim) {
 			}
 		}
 		return true
-	})
+	}
+	have := func() int {
+		n := 0
+		for _, in := range inputs {
+			if last["out:"+in] > 0 {
+				n++
+			}
+		}
+		return n
+	}
+	complete := false
+	for start, prev := s.Now(), -1; !complete && s.Now()-start < time.Hour; {
+		complete = s.WaitFor(bound, 2*time.Second, done)
+		if n := have(); n > prev {
+			prev = n
+			continue
+		}
+		break
+	}
 	smu.Lock()
 	stopping = true
 	smu.Unlock()
